@@ -442,6 +442,22 @@ def _str_bytes(ex, callee, argv):
     return Agg([r, Sc(0, "usize"), Sc(n, "usize")], name="Bytes")
 
 
+def _str_chars_collect(ex, callee, argv):
+    """s.chars() on a string whose bytes are concrete ASCII: the characters; collect::<Vec<char>>() of that: the same list"""
+    if callee.endswith("::chars"):
+        r = argv[0]
+        n = ex.slice_len(r)
+        out = []
+        for i in range(n):
+            b_ = ex.read_at(r.cell, r.path + ((r.rng[0] if r.rng else 0) + i,), None)
+            if not (isinstance(b_, Sc) and b_.conc() and b_.v < 128):
+                raise Unsupported("chars() of a non-ASCII or symbolic string")
+            out.append(Sc(b_.v, "char"))
+        return Agg(out, name="Chars")
+    v = argv[0]
+    return Agg(list(v.f), name="Vec")
+
+
 def _bytes_next(ex, callee, argv):
     it = ex.load(argv[0])
     r, i, n = it.f
@@ -655,6 +671,8 @@ TABLE = [
     (re.compile(r"^<\[\w+; \d+\] as PartialOrd>::(lt|le|gt|ge)$"), _array_lex_cmp),
     (re.compile(r"^Option::(as_ref|as_mut)$"), _option_as_ref),
     (re.compile(r"^core::str::<impl str>::len$"), _str_len),
+    (re.compile(r"^core::str::<impl str>::chars$"), _str_chars_collect),
+    (re.compile(r"^<Chars as Iterator>::collect$"), _str_chars_collect),
     (re.compile(r"^core::str::<impl str>::(bytes|as_bytes)$"), _str_bytes),
     (re.compile(r"^<std::str::Bytes as IntoIterator>::into_iter$"), _into_iter),
     (re.compile(r"^<std::str::Bytes as Iterator>::next$"), _bytes_next),
